@@ -248,6 +248,35 @@ def crlf_ignore():
     save("crlf_ignore", ["C17", "C13", "C04"], steps)
 
 
+def punct_identity():
+    """every printable ASCII punctuation character at the start, inside and at the end of a word of the user name
+    (no '<', which a name cannot hold; no leading '-'), written locally or globally, then used by a commit"""
+    steps = [{"ev": "init"}, {"ev": "config", "key": "user.email", "value": "bot@example.com"}]
+    steps.append(w("a", "0"))
+    for i, ch in enumerate("!\"#$%&'()*+,-./:;=>?@[\\]^_`{|}~"):
+        name = "Release%sBot %s2 nightly%s" % (ch, ch, ch)
+        ev = {"ev": "config", "key": "user.name", "value": esc(name)}
+        if i % 3 == 2:
+            ev["global"] = True
+        steps.append(ev)
+        if i % 3 == 2:
+            # the local name still wins: set it too, a little differently
+            steps.append({"ev": "config", "key": "user.name", "value": esc("L" + name)})
+        steps.append(w("a", "v%d" % i))
+        steps.append({"ev": "add", "paths": ["a"]})
+        steps.append({"ev": "commit", "msg": esc("by %s" % ch)})
+        if i % 5 == 0:
+            steps.append({"ev": "log", "n": 1})
+    steps.append({"ev": "config", "key": "other.key", "value": esc("semi; colon # hash = equals")})
+    steps.append({"ev": "config", "key": "user.email", "value": "bot+x@example.com"})
+    steps.append(w("a", "last"))
+    steps.append({"ev": "add", "paths": ["a"]})
+    steps.append({"ev": "commit", "msg": "last"})
+    steps.append({"ev": "log", "n": 3})
+    steps.append({"ev": "reflog"})
+    save("punct_identity", ["C02", "C12", "C20", "C11"], steps)
+
+
 if __name__ == "__main__":
     name_lengths()
     big_index()
@@ -256,3 +285,4 @@ if __name__ == "__main__":
     many_branches()
     punct_names()
     crlf_ignore()
+    punct_identity()
